@@ -55,7 +55,30 @@ pub fn oracle(script: &Script, o: &Outcome) -> Option<(String, String)> {
                 // closed: judged only if the document was last touched BEFORE the last reload trigger
                 // (a close after the reload legitimately leaves the last editor text; that is not this property)
                 let touched_after = last_doc_op_index(script, d).map(|i| i > reload_at).unwrap_or(false);
-                if touched_after || o.model.version[d] == 0 && o.model.disk[d].is_none() {
+                if o.model.version[d] == 0 && o.model.disk[d].is_none() {
+                    continue;
+                }
+                if touched_after {
+                    // closed after the last reload trigger: whether the close was handled before,
+                    // during or after the reload is not known from the script. Whatever the timing,
+                    // a document that is not on disk must be gone, and an on-disk one holds either
+                    // its disk content or (close after the reload) the last editor text — never nothing.
+                    let last_editor = doc_text(d, o.model.version[d]);
+                    let ok = match &o.model.disk[d] {
+                        None => o.final_text[d].is_none(),
+                        Some(disk) => o.final_text[d].as_deref() == Some(disk.as_str()) || o.final_text[d].as_deref() == Some(last_editor.as_str()),
+                    };
+                    if !ok {
+                        let obs = match &o.final_text[d] {
+                            None => "absent",
+                            Some(x) if x.starts_with("local disk") => "older-disk-content",
+                            Some(_) => "editor-text",
+                        };
+                        return Some((
+                            format!("C29:file-closed-around-reload-in-impossible-state:observed={obs}:disk={}", if o.model.disk[d].is_some() { "present" } else { "absent" }),
+                            format!("doc{d} was closed after the reload trigger; disk holds {:?}, last editor text {:?}, analysis holds {:?}", o.model.disk[d], last_editor, o.final_text[d]),
+                        ));
+                    }
                     continue;
                 }
                 if o.final_text[d] != o.model.disk[d] {
@@ -142,6 +165,11 @@ pub fn run(ctx: &mut Ctx) {
         // make sure a reload races the document traffic: insert a trigger in the middle third
         let pos = script.ops.len() / 3 + rng.below(script.ops.len() / 3 + 1);
         script.ops.insert(pos, Op::Emmyrc(rng.below(4) as u32));
+        if i % 2 == 1 {
+            // targeted family: notifications arriving while the debounced reload task runs
+            script = gen_race_script(&mut rng, true, 2000);
+            ctx.clause("family:race-with-reload");
+        }
         for k in 0..3u64 {
             let mut s = script.clone();
             s.sched_seed = if k == 0 { 0 } else { rng.next_u64() | 1 };
